@@ -641,6 +641,11 @@ class MockCA:
                 oid = str(self.obj_ctr)
                 authz_urls = []
                 for ident in ids:
+                    aid = self.reusable_authz(kid, ident) if o.get("reuse_pending_authz") else None
+                    if aid is not None:
+                        rec.setdefault("authz_reused", []).append(aid)
+                        authz_urls.append(self.url("/authz/" + aid))
+                        continue
                     self.obj_ctr += 1
                     aid = str(self.obj_ctr)
                     val = ident["value"]
@@ -884,6 +889,19 @@ class MockCA:
         elif self.o.get("wildcard_false_explicit"):
             b["wildcard"] = False
         return b
+
+    def reusable_authz(self, kid, ident):
+        """Option `reuse_pending_authz` (RFC 8555 leaves it to the server; Boulder did it for years): a new order gets,
+        for an identifier the SAME account already holds an authorization for that is still served as "pending" (no
+        verdict yet, whether or not a challenge was answered), that authorization AGAIN — same URL, same challenges, same
+        tokens — instead of a new one.  Returns its id (the newest such authorization) or None."""
+        for aid in sorted(self.authzs, key=int, reverse=True):
+            a = self.authzs[aid]
+            od = self.orders.get(a["order"])
+            if od is not None and od["account"] == kid and a["orig"] == ident.get("value") \
+                    and a["identifier"]["type"] == ident.get("type") and a["status"] in ("pending", "processing"):
+                return aid
+        return None
 
     # ------------------------------------------------------------------ asynchronous validation
     # opts["validate_after_polls"] = k: the challenge POST is answered "processing" at once and the
